@@ -143,7 +143,14 @@ class CCodeMapper(SimplifyingSortingStringifyMapper):
             elif is_zero(expr.exponent - 1):
                 return self.rec(expr.base, enclosing_prec)
             elif is_zero(expr.exponent - 2):
-                return self.rec(expr.base*expr.base, enclosing_prec)
+                # The square is written as a product, but it must remain a
+                # single operand of an enclosing product, quotient or remainder
+                # (a % b**2 is not a % b * b).
+                from pymbolic.mapper.stringifier import PREC_PRODUCT
+                result = self.rec(expr.base*expr.base, PREC_PRODUCT)
+                if enclosing_prec >= PREC_PRODUCT:
+                    result = f"({result})"
+                return result
 
         return self.format("pow(%s, %s)",
                 self.rec(expr.base, PREC_NONE),
